@@ -759,11 +759,14 @@ class ISMAGS:
                     # matters.
                     # So option 1) Hit it with a big hammer and simply make all
                     # orderings.
-                    permutations = cls._get_permutations_by_length(refined)
+                    permutations = list(cls._get_permutations_by_length(refined))
                     new_output = []
                     for n_p in output:
                         for permutation in permutations:
-                            new_output.append(n_p + list(permutation[0]))
+                            # permutation holds one ordering per cell size;
+                            # keep the cells of every size.
+                            new_output.append(n_p + [cell for cells in permutation
+                                                     for cell in cells])
                     output = new_output
                 else:
                     for n_p in output:
